@@ -256,6 +256,102 @@ theorem getAfterConsent_ok (cfg : Cfg) (s : Store) (req : GetReq) (flags : UInt8
   · obtain ⟨h1, h2, h3, h4, _⟩ := signPhase_ok _ _ _ _ _ _ h
     exact ⟨⟨_, h1⟩, h2, h3, h4⟩
 
+/-! ### error codes of the later phases, stores without injected faults -/
+
+theorem chooseAlgorithm_err (cfg : Cfg) (params : List Int) (e : Nat) (h : chooseAlgorithm cfg params = .error e) :
+    e = eUnsupportedAlgorithm := by
+  unfold chooseAlgorithm at h
+  split at h
+  · cases h
+  · cases h; rfl
+
+theorem calculateHmacSecret_err (creds : HmacSecret) (salts : PrfValues) (hc : HmacCfg) (uv : Bool) (e : Nat)
+    (h : calculateHmacSecret creds salts hc uv = .error e) : e = eUserVerificationBlocked := by
+  unfold calculateHmacSecret at h
+  dsimp only at h
+  split at h
+  · rename_i e' hcr
+    cases h
+    split at hcr
+    · cases hcr
+    · split at hcr
+      · cases hcr
+      · cases hcr; rfl
+  · cases h
+
+theorem makeExtensions_err (cfg : Cfg) (dr : Draws) (r : Option MakeExtIn) (uv : Bool) (e : Nat)
+    (h : makeExtensions cfg dr r uv = .error e) : e = eUserVerificationBlocked := by
+  unfold makeExtensions at h
+  dsimp only at h
+  split at h
+  · rename_i e' hp
+    cases h
+    split at hp
+    · cases hp
+    · split at hp
+      · cases hp
+      · split at hp
+        · cases hp
+        · split at hp
+          · cases hp
+          · split at hp
+            · split at hp
+              · cases hp
+              · split at hp
+                · cases hp
+                · rename_i hcalc
+                  cases hp
+                  exact calculateHmacSecret_err _ _ _ _ _ hcalc
+            · cases hp
+  · cases h
+
+theorem fault_none_of_nofaults (s : Store) (h : s.faults = []) : s.fault? = none := by
+  unfold Store.fault?; rw [h]; rfl
+
+theorem finishMake_ok_of_nofaults (cfg : Cfg) (s : Store) (dr : Draws) (req : MakeReq) (flags : UInt8)
+    (prf : Option PrfMakeOut) (st : Option HmacSecret) (h : s.faults = []) :
+    ∃ r, (finishMake cfg s dr req flags prf st).result = .ok r := by
+  unfold finishMake
+  dsimp only
+  have : (s.info.2.1).fault? = none := fault_none_of_nofaults _ h
+  unfold Store.save
+  rw [this]
+  exact ⟨_, rfl⟩
+
+theorem excludePhase_faults (s : Store) (req : MakeReq) : (excludePhase s req).2.1.faults = s.faults := by
+  unfold excludePhase
+  split
+  · split <;> rfl
+  · rfl
+
+theorem rkPhase_faults (s : Store) (req : MakeReq) : (rkPhase s req).2.1.faults = s.faults := by
+  unfold rkPhase; split <;> rfl
+
+/-- without injected faults, the result is credential-excluded exactly when the exclude phase says so -/
+theorem makeAfterConsent_excluded_iff (cfg : Cfg) (s : Store) (dr : Draws) (req : MakeReq) (flags : UInt8)
+    (hnf : s.faults = []) :
+    (makeAfterConsent cfg s dr req flags).result = .error eCredentialExcluded ↔ (excludePhase s req).1 = true := by
+  unfold makeAfterConsent
+  dsimp only
+  by_cases he : (excludePhase s req).1 = true
+  · simp [he]
+  · simp only [he, Bool.false_eq_true, if_false, iff_false]
+    split
+    · rename_i e hch
+      rw [chooseAlgorithm_err _ _ _ hch]; intro h; cases h
+    · split
+      · intro h; cases h
+      · split
+        · intro h; cases h
+        · split
+          · rename_i e hme
+            rw [makeExtensions_err _ _ _ _ _ hme]; intro h; cases h
+          · rename_i prfOut stored _
+            obtain ⟨r, hr⟩ := finishMake_ok_of_nofaults cfg (rkPhase (excludePhase s req).2.1 req).2.1 dr req flags prfOut stored
+              (by rw [rkPhase_faults, excludePhase_faults, hnf])
+            simp only [Outcome.prepend, hr]
+            intro h; cases h
+
 theorem up_bit_of_flags (p v : Bool) (extra : UInt8) (h : extra &&& (Flags.UP ||| Flags.UV) = 0) :
     (((Flags.DEFAULT ||| flagsOf p v) ||| extra) &&& AuthData.Spec.bitUP != 0) = p
     ∧ (((Flags.DEFAULT ||| flagsOf p v) ||| extra) &&& AuthData.Spec.bitUV != 0) = v := by
